@@ -135,7 +135,7 @@ func main() {
 	o := vhlib.ParseOpts()
 	rng := vhlib.NewRng(o.Seed)
 	// thorough: the skip-list dumps of 2^14..2^16 nodes are several hundred KB each: few cases per file
-	shard := 40
+	shard := 24
 	if o.Thorough() {
 		shard = 6
 	}
@@ -419,5 +419,6 @@ func main() {
 	btOps(w, rng, o)
 	binOps(w, rng, o)
 	skipOps(w, rng, o)
-	w.Close(o, "D: B-trees (orders 3,4,5,6,8,16) of 0..256 keys: shape dumped, 48 mutating operations (Put new/present, Remove present/absent, Get) whose counts must EQUAL BTCost.put_cost/remove_cost on the model tree carried along by the C01 model and obey the proved bounds, final dump = model tree; D2: the same for red-black and AVL trees (dumps with colours / balance factors, cost = path_cost resp. rb_put_cost of the tree before the operation, model tree carried by RB.put/RB.remove/AVL.put/AVL.remove); E: zset/skipmap/skipset of 0..1024 keys: level-0 keys, heights, lanes dumped, 32-96 lookups/inserts/deletes whose counts must EQUAL the SkipCost search cost on the carried node sequence, highestLevel tracked, final dump = model sequence; A: trees of 0..256 (thorough ..2048) keys built asc/desc/zigzag/random/churn, shape dumped, 24 non-mutating probes each whose comparator-call count must equal the cost model on that shape and obey the proved bound; B: trees of 2^8..2^12 (thorough ..2^16) keys, 120 mutating/non-mutating operations each judged against the bound for the size at that moment; C: zset/skipmap/skipset of the same sizes: lane structure from the dump and batch averages of 256 lookups/inserts/deletes against c*log2(n)+d; distinct = distinct case terms")
+	skipAvg(w, rng, o)
+	w.Close(o, "D: B-trees (orders 3,4,5,6,8,16) of 0..256 keys: shape dumped, 48 mutating operations (Put new/present, Remove present/absent, Get) whose counts must EQUAL BTCost.put_cost/remove_cost on the model tree carried along by the C01 model and obey the proved bounds, final dump = model tree; D2: the same for red-black and AVL trees (dumps with colours / balance factors, cost = path_cost resp. rb_put_cost of the tree before the operation, model tree carried by RB.put/RB.remove/AVL.put/AVL.remove); E: zset/skipmap/skipset of 0..1024 keys populated through every insertion entry point (zset Add/AddB with tied, distinct and clustered scores/IncrBy; skipmap Store/LoadOrStore/LoadOrStoreLazy; skipset AddB/Add; and mixed): level-0 scores, keys, heights, lanes dumped, 32-96 point operations (Rank/RevRank/Score/AddB new, same score, new score in place and moving/IncrBy/RemoveB; Load/Get/Store/Put/LoadOrStore(Lazy) present and absent/Delete/LoadAndDelete/Range start; ContainsB/AddB/Add/RemoveB/Remove) whose counts must EQUAL the SkipCost search cost on the carried node sequence, highestLevel tracked, final dump = model sequence; F: the same populations at 2^8..2^12 (thorough ..2^16) keys: batches of 256 of every point operation judged against factor*(4*log2(n+2)+16), factor 2 for operations that search twice; A: trees of 0..256 (thorough ..2048) keys built asc/desc/zigzag/random/churn, shape dumped, 24 non-mutating probes each whose comparator-call count must equal the cost model on that shape and obey the proved bound; B: trees of 2^8..2^12 (thorough ..2^16) keys, 120 mutating/non-mutating operations each judged against the bound for the size at that moment; C: zset/skipmap/skipset of the same sizes: lane structure from the dump and batch averages of 256 lookups/inserts/deletes against c*log2(n)+d; distinct = distinct case terms")
 }
